@@ -130,7 +130,7 @@ static void handle(int argc, char** argv)
 	{
 		int pk = OP("pkenc");
 		x = hex_arg(argv[1], &n);
-		if (pk ? (n != 24 && n != 32 && n != 48 && n != 64) : ((n != 17 && n != 25 && n != 33) || x[0] < 1 || x[0] > 16))
+		if (pk ? (n != 24 && n != 32 && n != 48 && n != 64) : (n != 17 && n != 25 && n != 33))   /* share[0] in 1..16 is checked by bpkiShareUnwrap, not by the codec */
 			printf("invalid");
 		else
 		{
